@@ -4,7 +4,8 @@ from __future__ import annotations
 from .queries import names_of
 
 LEAVES = [None, True, False, 0, 1, 2, -1, 1.0, 1.5, 0.0, -0.0, "", "a", "b", "ab", "é", "\U0001F600", [], {}, 10, 100, "1", "0",
-          2**53, 2**53 + 1, -(2**53) - 1, 10**20, 1e16, 9007199254740992.0, 1e308, 5e-324, "e\u0301", "\u212a", "K", "k", "\u00df", "ss"]
+          2**53, 2**53 + 1, -(2**53) - 1, 10**20, 1e16, 9007199254740992.0, 1e308, 5e-324, "e\u0301", "\u212a", "K", "k", "\u00df", "ss",
+          "[1, 2]", "{\"a\": 1}", "hello"]
 
 
 def near_misses(v):
@@ -40,7 +41,62 @@ def gen_value(R, names, leaves, depth=0, maxdepth=4, maxwidth=4):
     return d
 
 
-def doc_for(R, q, maxdepth=4, maxwidth=4, extra_names=("a", "b", "c")):
+SHAPES = ["many-empties", "wide-array", "wide-object", "deep-chain", "stringy", "root-scalar"]
+
+
+def shaped_doc(R, names, leaves, shape):
+    """Documents of a particular overall shape (size / depth / type mix that the recursive generator rarely produces)."""
+    def leaf():
+        v = R.choice(leaves)
+        return type(v)() if isinstance(v, (list, dict)) else v
+
+    def small():
+        return gen_value(R, names, leaves, 0, 2, 3)
+    if shape == "many-empties":
+        n = R.randint(60, 160)
+        recs = []
+        for i in range(n):
+            rec = {R.choice(names): [], R.choice(names) + "_": {}}
+            if i % 7 == 0:
+                rec[R.choice(names)] = small()
+            recs.append(rec if R.random() < 0.8 else [[], {}, leaf()])
+        return recs if R.random() < 0.5 else {R.choice(names): recs, "z": leaf()}
+    if shape == "wide-array":
+        n = R.randint(120, 300)
+        arr = [leaf() if R.random() < 0.8 else small() for _ in range(n)]
+        return arr if R.random() < 0.5 else {R.choice(names): arr, R.choice(names) + "2": [arr[:3]]}
+    if shape == "wide-object":
+        d = {}
+        for i in range(R.randint(100, 200)):
+            d[R.choice(["k%d" % i, str(i), str(-i), R.choice(names) + str(i)])] = leaf() if R.random() < 0.8 else small()
+        for n_ in names[:6]:
+            d[n_] = small()
+        return d if R.random() < 0.5 else [d, small()]
+    if shape == "deep-chain":
+        depth = R.randint(30, 90)
+        cur = small()
+        for i in range(depth):
+            if R.random() < 0.5:
+                cur = [cur] if R.random() < 0.5 else [leaf(), cur]
+            else:
+                cur = {R.choice(names): cur}
+                if R.random() < 0.3:
+                    cur[R.choice(names)] = leaf()
+        return cur
+    if shape == "stringy":
+        def sv(depth):
+            r = R.random()
+            if depth >= 3 or r < 0.5:
+                return R.choice(["hello", "ab", "", "[1, 2]", "x", "0", "\U0001F600z"])
+            if r < 0.75:
+                return [sv(depth + 1) for _ in range(R.randint(0, 4))]
+            return {R.choice(names): sv(depth + 1) for _ in range(R.randint(0, 4))}
+        return sv(0) if R.random() < 0.3 else [sv(1), sv(1), sv(0)]
+    # root-scalar: the query argument itself is a primitive (incl. strings that look like JSON text)
+    return R.choice(["[1, 2]", "{\"a\": 1}", "hello", "", 0, 1, 1.5, True, False, None, "[\"[1]\"]", "{}", "[]", " [1]", "\"a\""])
+
+
+def doc_for(R, q, maxdepth=4, maxwidth=4, extra_names=("a", "b", "c"), shapes=0.05, feat=None):
     info = names_of(q)
     names = list(info["names"]) * 3 + list(extra_names)
     # near-miss names: index-like names, case variants
@@ -54,6 +110,11 @@ def doc_for(R, q, maxdepth=4, maxwidth=4, extra_names=("a", "b", "c")):
         leaves += [v, v, v]
         leaves += near_misses(v)
     leaves = [x for x in leaves if _jsonable(x)]
+    if shapes and R.random() < shapes:
+        shape = R.choice(SHAPES)
+        if feat is not None:
+            feat["doc-shape:" + shape] = feat.get("doc-shape:" + shape, 0) + 1
+        return shaped_doc(R, names or ["a"], leaves, shape)
     doc = gen_value(R, names, leaves, 0, maxdepth, maxwidth)
     if R.random() < 0.85 and not isinstance(doc, (list, dict)):
         doc = [doc, gen_value(R, names, leaves, 1, maxdepth, maxwidth)]
